@@ -2,7 +2,7 @@
    Model/Coarse.v: an index map assigns to every grid cell a group (>= 0) or -1 (dropped); group g's members are the cells
    mapped to g; every aggregated quantity of coarsegrain.py is a sum over members. *)
 From Coq Require Import ZArith QArith Qcanon List Lia Bool.
-From Verif Require Import Num NumFacts Grid Coarse CoarseFacts.
+From Verif Require Import Num NumFacts Grid GridFacts Coarse CoarseFacts CoarseEdges Engine EngineFacts CoarseIdentity.
 Open Scope Qc_scope.
 
 (* whatever is summed over the members of every group - volumes, a species' amounts - adds up to the sum over the retained cells:
@@ -34,10 +34,49 @@ Theorem C16_uncg_total : forall (v : Qc) (ms : list nat), ms <> [] -> sumQ (map 
 Proof. exact uncg_group_total. Qed.
 Print Assumptions C16_uncg_total.
 
+(* two groups are connected exactly when some of their member cells share a face (a grid adjacency - grid_to_graph's edge list,
+   whose multiplicities are the grid's by C15 - with one end in each group), and the contact surface is the number of shared
+   faces x the face area; for every index map and every pair of groups i < j *)
+Theorem C16_connected_iff_shared_face : forall g im h i j, (0 <= i < j)%Z ->
+  (In (i, j) (map fst (cg_edges g im h)) <-> (0 < shared_faces g im i j)%nat).
+Proof. exact cg_connected_iff. Qed.
+Print Assumptions C16_connected_iff_shared_face.
+
+Theorem C16_contact_surface : forall g im h i j, (0 <= i < j)%Z ->
+  surf (i, j) (cg_edges g im h) = QcZ (Z.of_nat (shared_faces g im i j)) * (h * h).
+Proof. exact cg_contact_surface. Qed.
+Print Assumptions C16_contact_surface.
+
+(* the identity map: one node per cell with the cell's volume and position, grid_to_graph's edges with one face each, centroids
+   one cell edge apart ... *)
+Theorem C16_identity_edges : forall g h, wf_grid g -> reflecting g ->
+  cg_edges g (identity_map (Z.to_nat (gsize g))) h = map (fun e => (e, h * h)) (g2g_edges g).
+Proof. exact cg_identity_edges. Qed.
+Print Assumptions C16_identity_edges.
+
+Theorem C16_identity_nodes : forall g n h k, (k < n)%nat ->
+  node_volume (identity_map n) n h k = h * h * h /\ centroid g (identity_map n) n h k = cell_pos g h k.
+Proof. intros g n h k Hk. split; [exact (cg_identity_volume n h k Hk) | exact (cg_identity_centroid g n h k Hk)]. Qed.
+Print Assumptions C16_identity_nodes.
+
+Theorem C16_identity_distance : forall g h e, wf_grid g -> reflecting g -> In e (g2g_edges g) ->
+  dist2 (cell_pos g h (Z.to_nat (fst e))) (cell_pos g h (Z.to_nat (snd e))) = h * h.
+Proof. exact cg_identity_distance. Qed.
+Print Assumptions C16_identity_distance.
+
+(* ... so that simulating with the identity map reproduces the plain simulation: every Euler trajectory, any network tables,
+   any step and length, any start *)
+Theorem C16_identity_reproduces : forall T g h, wf_grid g -> reflecting g -> Z.of_nat (nC T) = gsize g -> h <> 0 ->
+  forall dt n x,
+  euler_steps T (cg_geom (repeat h (Z.to_nat (gsize g))) (cg_edges g (identity_map (Z.to_nat (gsize g))) h) (fun _ => h)) dt n x
+  = euler_steps T (GGrid g h) dt n x.
+Proof. exact cg_identity_trajectories. Qed.
+Print Assumptions C16_identity_reproduces.
+
 (* non-vacuity: a 3x2 grid, two environments, non-contiguous group 0 = {0, 5}, cells 2 and 3 (different environments) dropped *)
 Example C16_example :
   let g := {| gw := 3; gh := 2; gd := 1; px := false; py := false; pz := false |} in
   let im := [0; 1; -1; -1; 1; 0]%Z in
   valid_map im 6 [0; 1; 0; 1; 1; 0]%Z = true /\ ngroups im = 2%nat /\
-  map fst (cg_edges g im 1) = [(0, 1)%Z] /\ map snd (cg_edges g im 1) = [Q2Qc 2].
+  map fst (cg_edges g im 1) = [(0, 1)%Z] /\ map snd (cg_edges g im 1) = [Q2Qc 2] /\ shared_faces g im 0 1 = 2%nat.
 Proof. vm_compute. repeat split. Qed.
